@@ -286,9 +286,7 @@ func (e *kvElection) Start(ctx context.Context) error {
 			e.recordFailure(classifyErrorType(err))
 			// An acquisition left over from before a restart may have won
 			// meanwhile (the record is ours): do not depose ourselves.
-			if !e.IsLeader() {
-				e.becomeFollower()
-			}
+			e.settleAsFollower()
 		}
 	}()
 
@@ -345,9 +343,7 @@ func (e *kvElection) attemptAcquireWithRetry(ctx context.Context) {
 					zap.Error(err),
 				)...,
 			)
-			if !e.IsLeader() {
-				e.becomeFollower()
-			}
+			e.settleAsFollower()
 			return
 		}
 
@@ -665,6 +661,20 @@ func (e *kvElection) attemptPriorityTakeover(ctx context.Context, payloadBytes [
 // this call actually ended a leadership term, so that callers invoke OnDemote
 // exactly once per term however many mechanisms notice the same loss.
 func (e *kvElection) becomeFollower() bool {
+	return e.follow(false)
+}
+
+// settleAsFollower is for an acquisition that has failed: the instance moves to
+// FOLLOWER (and starts following the key) unless it leads. Looking at
+// IsLeader() first and calling becomeFollower afterwards is not the same: an
+// acquisition of this instance that was still in flight (left over from before
+// a restart, or a second round) can be adopted between the two, and its brand
+// new term would be ended - silently, since nobody asks for the result.
+func (e *kvElection) settleAsFollower() {
+	e.follow(true)
+}
+
+func (e *kvElection) follow(unlessLeading bool) bool {
 	e.mu.Lock()
 	defer e.mu.Unlock()
 
@@ -672,6 +682,9 @@ func (e *kvElection) becomeFollower() bool {
 	// flight when Stop/StopWithContext ran must not move it back to FOLLOWER
 	// (Stop has cleared the claim and takes care of OnDemote itself).
 	if e.ctx == nil || e.ctx.Err() != nil {
+		return false
+	}
+	if unlessLeading && e.isLeader.Load() {
 		return false
 	}
 
